@@ -40,7 +40,7 @@ type c04Call struct {
 	rywBad   string // a read inside the transaction that missed the transaction's own write
 }
 
-var c04Kinds = []string{"inc", "inc", "inc", "insert", "cas", "claim", "claim", "delete", "transfer", "transfer", "transferRj", "abortInsert", "read", "read", "count", "push"}
+var c04Kinds = []string{"inc", "inc", "inc", "insert", "cas", "claim", "claim", "delete", "transfer", "transfer", "transferRj", "abortInsert", "abortReplace", "read", "read", "count", "push"}
 
 func genC04(t *rapid.T) bson.D {
 	na := rapid.IntRange(2, 8).Draw(t, "actors")
@@ -179,6 +179,30 @@ func c04Exec(env *hEnv, c *c04Call, sess lungo.ISession) {
 			c.rywBad = fmt.Sprintf("abortInsert %s: inserting the id of the aborted insert afterwards failed: %v", c.cid, err)
 		} else {
 			c.modified = 1
+		}
+	case "abortReplace":
+		// a transaction whose first write is a replace (once of an existing
+		// document, once as an upsert) and which is aborted: no document and
+		// no change event of it may exist afterwards
+		id := "a" + c.cid
+		if err := sess.StartTransaction(); err != nil {
+			setErr(err)
+			return
+		}
+		_ = lungo.WithSession(ctx, sess, func(sc lungo.ISessionContext) error {
+			if _, err := hot.ReplaceOne(sc, bson.D{{Key: "_id", Value: int32(c.k)}}, bson.D{{Key: "n", Value: int64(-777)}, {Key: "log", Value: bson.A{c.cid}}}); err != nil {
+				c.rywBad = fmt.Sprintf("abortReplace %s: replace inside the transaction failed: %v", c.cid, err)
+			}
+			if _, err := aux.ReplaceOne(sc, bson.D{{Key: "_id", Value: id}}, bson.D{{Key: "by", Value: c.cid}}, options.Replace().SetUpsert(true)); err != nil {
+				c.rywBad = fmt.Sprintf("abortReplace %s: upserting replace inside the transaction failed: %v", c.cid, err)
+			}
+			return nil
+		})
+		if err := sess.AbortTransaction(ctx); err != nil {
+			c.rywBad = fmt.Sprintf("abortReplace %s: AbortTransaction failed: %v", c.cid, err)
+		}
+		if n, err := hot.CountDocuments(ctx, bson.D{{Key: "n", Value: int64(-777)}}); err != nil || n != 0 {
+			c.rywBad = fmt.Sprintf("abortReplace %s: %d documents carry the aborted replacement (%v)", c.cid, n, err)
 		}
 	case "transfer", "transferRj":
 		if c.k == c.k2 {
@@ -380,6 +404,8 @@ func c04Check(prog [][]*c04Call, env *hEnv, initial *lungo.Catalog, initLen int,
 		switch asS(getD(ev, "operationType")) {
 		case "insert":
 			owner = byCid[asS(getD(asD(getD(ev, "fullDocument")), "by"))]
+		case "replace":
+			return fmt.Errorf("change-log event %d is a replace event, but no call of the program commits a replace (an aborted transaction did one): %s", i, show(ev))
 		case "update":
 			// the last log entry of the new version names the writer, except for
 			// $addToSet pushes (cid is appended as well)
